@@ -209,6 +209,12 @@ def main(argv: Optional[List[str]] = None) -> int:
         _evidence_on_error(pid, args, seed, t0, str(e))
         return 2
     except Exception as e:  # tracebacks exit 2, never 1
+        prior = getattr(locals().get("ctx"), "analysis_errors", None)
+        if prior:
+            # a rule that could not be evaluated returned nothing and its caller tripped over that: report the original reason
+            print(f"ANALYSIS-ERROR property={pid} {prior[0]}")
+            _evidence_on_error(pid, args, seed, t0, prior[0])
+            return 2
         traceback.print_exc()
         print(f"ANALYSIS-ERROR property={pid} internal error: {type(e).__name__}: {e}")
         _evidence_on_error(pid, args, seed, t0, f"internal error {type(e).__name__}: {e}")
